@@ -1,7 +1,7 @@
 From Coq Require Import ZArith NArith List Bool String.
 From Coq Require Import ExtrOcamlBasic.
 From Falcon.lib Require Import Wire PyStr.
-From Falcon.C15 Require Import Model Spec.
+From Falcon.C15 Require Import Model Spec CookieText.
 Import ListNotations.
 Open Scope Z_scope.
 
@@ -138,7 +138,8 @@ Definition v_res (r : res str) : val :=
    oracle; 4 cookie attribute oracle; 5 expired oracle; 6 emission oracle;
    7 transform (one property value); 8 the case-insensitive map spec read at some names;
    9 taken_as_escaped (the documented exception region of the check-escaped encoders);
-   10 cookie emission-order oracle *)
+   10 cookie emission-order oracle; 11 http.cookies._quote; 12 _unquote; 13 the value reader of
+   _parse_cookie_header; 14 echo oracle *)
 Definition run (v : val) : val :=
   match v with
   | L [I 0; f; sd; ops] =>
@@ -158,6 +159,10 @@ Definition run (v : val) : val :=
     vlist (fun n => vopt vstr (m (lower (dstr n)))) (match names with L l => l | _ => [] end)
   | L [I 10; k; before; name; after] =>
     vbool (cookie_order_ok (dN k) (dlist dstr before) (dstr name) (dlist dstr after))
+  | L [I 11; v] => vstr (quote (dstr v))
+  | L [I 12; s] => vstr (unquote (dstr s))
+  | L [I 13; s] => vstr (parse_cookie_value (dstr s))
+  | L [I 14; v; coded; got] => vlist vN (echo_oracle (dstr v) (dstr coded) (dstr got))
   | L [I 9; isv; chk; s] => vbool (taken_as_escaped (dbool isv) (dbool chk) (dstr s))
   | _ => L [I (-1)]
   end.
